@@ -58,6 +58,26 @@ def allocation_of_action(h, action, lead_symbol=None):
     return out
 
 
+def resolve_allocation(h, alloc, now):
+    """Replaces ('chain', j) keys by the symbol of the contract the chain denotes at `now` according to the
+    calendar-free model (first listed contract whose last-trading instant is strictly later than now, shifted
+    by the chain's month offset); the listed instants are data taken from the library (C19)."""
+    from tesim.epimodel import lead_index
+    out = {}
+    for key, v in alloc.items():
+        if isinstance(key, tuple) and key[0] == "chain":
+            j = key[1]
+            chain = h.contracts[j]
+            ltd = [f.last_trading_date.to_pydatetime() if hasattr(f.last_trading_date, "to_pydatetime") else f.last_trading_date for f in chain.contracts]
+            t = now.to_pydatetime() if hasattr(now, "to_pydatetime") else now
+            idx = lead_index(ltd, t, h.spec["contracts"][j].get("month", 0))
+            if idx is None or idx >= len(chain.contracts):
+                raise core.HarnessError("chain has no lead at {}".format(now))
+            key = chain.contracts[idx].symbol
+        out[key] = out.get(key, 0.0) + v
+    return out
+
+
 def null_allocation(h):
     sp = h.spec["space"]
     if sp["type"] == "discrete":
@@ -95,7 +115,7 @@ def expected_books(d, h, steps, upto_exec, at_step_end=False):
                     continue
                 books[sym] = (es["bid"], es["ask"])
             elif es["type"] == "rate":
-                books["__rate__"] = (es["r"], es["r"])
+                books["__rate__"] = (es["bid"], es["ask"]) if es.get("via_prices") else (es["r"], es["r"])
             elif es["type"] == "disc":
                 sym = event_symbol(h, es, item[2])
                 dead.add(sym)
@@ -105,6 +125,9 @@ def expected_books(d, h, steps, upto_exec, at_step_end=False):
 
 def event_symbol(h, es, t=None):
     c = es["c"]
+    if isinstance(c, list) and c[1] == "chain":
+        # addressed to the chain: filed under the contract the chain stands for at the event's own time
+        return list(resolve_allocation(h, {("chain", c[0]): 1.0}, t if t is not None else core.parse_t(es["t"])))[0]
     if isinstance(c, list):
         return h.contracts[c[0]].contracts[c[1]].symbol
     if c == "rate":
